@@ -155,7 +155,10 @@ def main():
             out = []
             for sid in by_slot[k]:
                 props = only[0] if only else (["C%02d" % i for i in range(1, 21)] if allp else None)
-                if props is None and extra:
+                if "--own-only" in sys.argv:
+                    own = json.load(open(os.path.join(SEEDED, sid, "meta.json")))["property"]
+                    props = [own] + (extra[0] if (extra and "-w2-" in sid) else [])
+                elif props is None and extra:
                     own = json.load(open(os.path.join(SEEDED, sid, "meta.json")))["property"]
                     props = NEIGH[own] + [p for p in extra[0] if p not in NEIGH[own]]
                 r = evaluate(sid, k, props, tier)
